@@ -115,7 +115,7 @@ package connectconformance
 //@ func (*testResults).report
 //@   requires wfResults(r) && printer != nil
 //@   requires 0 <= r.totalTestCount && r.totalTestCount <= 4611686018427387904 //# resource assumption: fewer than 2^62 selected cases
-//@   modifies held, atomicI32, map[string]testOutcome, map[string]string, testResults.serverSideband, gVerdict
+//@   modifies held, atomicI32, map[string]testOutcome, map[string]string, testResults.serverSideband, gVerdict, prN
 //@   ensures !held[r.mu]
 //@   assume_ensures gVerdict[r] == result //# ghost bookkeeping only: records the verdict for Run's contract
 //@   ensures @verdict result == ((forall k string :: has(r.outcomes, k) ==> !specBad(r.outcomes[k])) && len(r.outcomes) >= r.totalTestCount)
